@@ -54,6 +54,26 @@ REQUIRED = {
 }
 
 
+def _command_sources(ops):
+    """(attributes of _ResourceOperations that hold a file-system command object, methods that hand one of them out): found by what
+    they are -- attributes bound in __init__ to something of the fscommands layer, methods that return nothing but such attributes --
+    not by their names"""
+    init = ops.methods.get("__init__")
+    attrs = set()
+    if init is not None:
+        for a in walk_local(init.node):
+            if isinstance(a, ast.Assign) and any(is_self_attr(t) for t in a.targets) and "fscommands" in ast.unparse(a.value).lower().replace("filesystemcommands", "fscommands"):
+                attrs |= {t.attr for t in a.targets if is_self_attr(t)}
+    getters = set()
+    for name, m in ops.methods.items():
+        rets = [r.value for r in walk_local(m.node) if isinstance(r, ast.Return) and r.value is not None]
+        if rets and all(is_self_attr(v) and v.attr in attrs for v in rets):
+            getters.add(name)
+    if not attrs:
+        raise AnalysisError("anchor=_ResourceOperations.__init__: no attribute bound to a file-system command object")
+    return attrs, getters
+
+
 def _is_observer_loop(n: ast.AST) -> bool:
     return isinstance(n, ast.For) and any(isinstance(x, ast.Attribute) and x.attr == "observers" for x in ast.walk(n.iter))
 
@@ -248,20 +268,22 @@ def _check_main(ctx, res) -> None:
     ops = idx.need_class("rope.base.change._ResourceOperations")
 
     # which methods mutate (directly, or via a self.method that does)
+    cmd_attrs, cmd_getters = _command_sources(ops)
+
     def direct_mutations(fn) -> List[ast.Call]:
         locs = set()
         pnames = set(param_names(fn))  # a file-system command object handed in as a parameter
         for n in walk_local(fn):
             if isinstance(n, ast.Assign) and isinstance(n.value, ast.Call) and is_self_attr(n.value.func) \
-                    and "fscommands" in n.value.func.attr:
+                    and n.value.func.attr in cmd_getters:
                 locs |= {t.id for t in n.targets if isinstance(t, ast.Name)}
         out = []
         for c in calls_in(fn):
             if isinstance(c.func, ast.Attribute) and c.func.attr in MUTATOR_KIND:
                 r = c.func.value
-                if (isinstance(r, ast.Name) and (r.id in locs or (r.id in pnames and "commands" in r.id))) or (is_self_attr(r) and "commands" in r.attr):
+                if (isinstance(r, ast.Name) and (r.id in locs or (r.id in pnames and "commands" in r.id))) or (is_self_attr(r) and r.attr in cmd_attrs):
                     out.append(c)
-                elif isinstance(r, ast.Call) and is_self_attr(r.func) and "fscommands" in r.func.attr:
+                elif isinstance(r, ast.Call) and is_self_attr(r.func) and r.func.attr in cmd_getters:
                     out.append(c)  # the command object used where it is obtained: self._get_fscommands(r).move(...)
         return out
 
@@ -288,7 +310,7 @@ def _check_main(ctx, res) -> None:
             continue
         # the notification may be a private step of the method (`self._notify_moved(a, b)`): read in place -- but not the getter of the
         # command object, by which the mutations are recognised
-        mnode = common.inline_private_calls(idx, m, keep=tuple(k for k in ops.methods if "fscommands" in k))
+        mnode = common.inline_private_calls(idx, m, keep=tuple(cmd_getters))
         cfg = CFG(mnode)
         mut_nodes = []
         dm = direct_mutations(mnode)
@@ -476,7 +498,9 @@ def _check_main(ctx, res) -> None:
     if not pch:
         raise AnalysisError("anchor=FilteredResourceObserver._perform_changes not found")
     n134 = 0
-    for lp in [n for n in pch.node.body if isinstance(n, ast.For)]:
+    # the three report loops may be private steps of the method (`self._report_changed(changes)` ...): read in place
+    pch_node = common.inline_private_calls(idx, pch)
+    for lp in [n for n in walk_local(pch_node) if isinstance(n, ast.For)]:
         kinds = sorted(_notify_kinds(lp))
         if not kinds:
             continue
@@ -988,9 +1012,16 @@ def _write_that_creates_rule(ctx, res) -> None:
     for name, m in sorted(ops.methods.items()):
         if name.startswith("_"):
             continue
-        mnode = common.inline_private_calls(idx, m, keep=tuple(k for k in ops.methods if "fscommands" in k))
-        writes = [c for c in calls_in(mnode) if isinstance(c.func, ast.Attribute) and c.func.attr == "write"
-                  and "commands" in ast.unparse(c.func.value)]
+        cmd_attrs, cmd_getters = _command_sources(ops)
+        mnode = common.inline_private_calls(idx, m, keep=tuple(cmd_getters))
+        cmd_locals = {t.id for a in walk_local(mnode) if isinstance(a, ast.Assign) and isinstance(a.value, ast.Call) and is_self_attr(a.value.func)
+                      and a.value.func.attr in cmd_getters for t in a.targets if isinstance(t, ast.Name)}
+
+        def is_command(r) -> bool:
+            return (isinstance(r, ast.Name) and r.id in cmd_locals) or (is_self_attr(r) and r.attr in cmd_attrs) \
+                or (isinstance(r, ast.Call) and is_self_attr(r.func) and r.func.attr in cmd_getters)
+
+        writes = [c for c in calls_in(mnode) if isinstance(c.func, ast.Attribute) and c.func.attr == "write" and is_command(c.func.value)]
         if not writes:
             continue
         params = m.call_params()
